@@ -26,6 +26,16 @@ theorem C19_legacy_quadratic (b : Nat) : legacyCapacity b = 8 * (2 ^ b) * (2 ^ b
   congr 1
   rw [← Nat.pow_add]; congr 1; omega
 
+/-- the list variant: `collect()` of an exact-size iterator requests exactly the number of exported
+entries (what the driver answers as `cap=` for the `klist` export), at most the entries stored before -/
+theorem C19_list_capacity (s : KL V) (t : Int) :
+    (s.export t).2.length = (s.export t).1.buf.length ∧ (s.export t).2.length ≤ s.buf.length := by
+  simp only [KL.export, List.length_map, true_and]
+  unfold KL.clearExpired
+  split
+  · exact Nat.le_refl _
+  · exact List.length_filter_le _ _
+
 example : ((St.new 0 : St Nat).kExport 0).map (·.2.2.1) = some 0 := by decide
 
 end ITree
